@@ -117,6 +117,21 @@ def seed(E, R):
     return "ok"
 
 
+def seed_ascii(E, R, L, P):
+    """mnemonic / passphrase as character strings of a given length (printable ASCII, content free): the lengths around
+    the HMAC-SHA512 block size (128) are where a re-implemented key schedule would differ"""
+    m = E.chars("m", L, None, lo=32, hi=126) if L else ""
+    p = E.chars("p", P, None, lo=32, hi=126) if P else ""
+    got = E.run(R.bip39.bip39_seed_from_mnemonic, m, p)
+    if isinstance(got, Raised):
+        E.fail("seed is computed for every mnemonic/passphrase")
+        return "raised"
+    mb = m.encode("utf-8") if L else b""
+    pb = (b"mnemonic" + p.encode("utf-8")) if P else b"mnemonic"
+    E.check_eq(got, E.H.pbkdf2("sha512", mb, pb, 2048), "seed == PBKDF2-HMAC-SHA512(mnemonic bytes, 'mnemonic' + passphrase bytes, 2048, 64) (ASCII text)")
+    return "ok"
+
+
 def routes(E, R, testnet):
     for m, p in texts(E, ("m", "p")):
         w = E.run(R.base_wallet.BaseWallet.from_mnemonic, m, p, testnet)
@@ -215,6 +230,9 @@ def cases(tier):
     for t in (False, True):
         cs.append(Case("routes[testnet=%s]" % t, "routes", dict(testnet=t), need=("the network flag does not change key material",
                                                                                     "from_mnemonic: master = HMAC-SHA512('Bitcoin seed', seed) halves")))
+    for L, P in ((0, 0), (1, 3), (64, 0), (127, 2), (128, 0), (128, 3), (129, 1), (200, 0), (24, 120), (24, 121)):
+        cs.append(Case("seed_ascii[%d,%d]" % (L, P), "seed_ascii", dict(L=L, P=P), weight=3,
+                       need=("seed == PBKDF2-HMAC-SHA512(mnemonic bytes, 'mnemonic' + passphrase bytes, 2048, 64) (ASCII text)",)))
     cs.append(Case("two_wallets", "two_wallets", dict(testnet=False), weight=5,
                    need=("each wallet holds the master key of its own mnemonic and passphrase",)))
     for n in (16, 20, 24, 28, 32):
